@@ -318,7 +318,11 @@ impl<'a> Gen<'a> {
                             .filter(|(d, rows)| {
                                 d.name != def.name
                                     && !rows.is_empty()
-                                    && d.pk.is_some_and(|p| d.cols[p].ty == c.ty)
+                                    && d.pk.is_some_and(|p| {
+                                        let t = d.cols[p].ty;
+                                        let int_ty = |t: Ty| matches!(t, Ty::Int | Ty::BigInt | Ty::SmallInt);
+                                        t == c.ty || (int_ty(t) && int_ty(c.ty))
+                                    })
                             })
                             .map(|(d, rows)| rows[rows.len() / 2][d.pk.unwrap()].clone())
                             .collect();
@@ -503,9 +507,14 @@ impl<'a> Gen<'a> {
         let a = with_pk[self.rng.usize(with_pk.len())].clone();
         let ak = a.cols[a.pk.unwrap()].clone();
         // partner with the same key type: the table itself unless another one qualifies
+        // (integer keys of different widths are partners too: `INT = BIGINT` is a legal join)
+        let int_ty = |t: Ty| matches!(t, Ty::Int | Ty::BigInt | Ty::SmallInt);
         let partners: Vec<TableDef> = with_pk
             .iter()
-            .filter(|d| d.cols[d.pk.unwrap()].ty == ak.ty)
+            .filter(|d| {
+                let t = d.cols[d.pk.unwrap()].ty;
+                t == ak.ty || (int_ty(t) && int_ty(ak.ty))
+            })
             .cloned()
             .collect();
         let others: Vec<TableDef> = partners.iter().filter(|d| d.name != a.name).cloned().collect();
@@ -1088,6 +1097,11 @@ impl<'a> Gen<'a> {
         self.prof.pk_pct = 100;
         self.prof.same_key_type_pct = 100;
         self.prof.borrow_key_pct = 45;
+        // a third of the scenarios: integer keys of different widths (INT = BIGINT joins)
+        if self.rng.chance(1, 3) {
+            self.prof.same_key_type_pct = 0;
+            self.prof.pk_types = vec![Ty::Int, Ty::BigInt, Ty::SmallInt];
+        }
         let nt = 2 + self.rng.usize(2);
         let mut names = vec![];
         for _ in 0..nt {
